@@ -1087,6 +1087,15 @@ func addlazytoyvec(a, b []uint64, q uint64) {}
 func (t *toyRing) AddToy(a, b []uint64)     { addlazytoyvec(a, b, t.q) }
 func (t *toyRing) AddLazyToy(x, y []uint64) { addlazytoyvec(x, y, t.q) }
 
+// MAXLEVP control: the digit size is the parameters' maximum, not the level of the key
+type auxParams struct{ p int }
+
+func (a auxParams) PCount() int { return a.p }
+
+func digitProduct(a auxParams, levelP int, split func(levelP, nbPi int)) {
+	split(levelP, a.PCount())
+}
+
 // ADVFWD control: the wrapper halves the forwarded count
 type wrapParams struct{ rows int }
 
